@@ -607,7 +607,13 @@ pub(crate) async fn execute_schema(agent: &Agent, statements: Vec<String>) -> ey
 
     // conn.trace(None);
 
-    apply_res?;
+    if let Err(e) = apply_res {
+        // the transaction is rolled back, but what cr-sqlite cached on this connection about
+        // tables altered before the failure is not: crsql_changes (and with it every local
+        // write) would keep failing on it. Do not reuse the connection.
+        conn.discard();
+        return Err(e);
+    }
 
     *schema_write = new_schema;
 
